@@ -362,3 +362,33 @@ async fn replay_f_c02a_vote_is_saved_before_it_is_acknowledged() {
         saves.load(Ordering::SeqCst)
     );
 }
+
+// ---------------------------------------------------------------------------------------------
+// F-C05a  AppendEntries with the virtual prev (0,0) wipes a follower log that agrees with the leader
+// ---------------------------------------------------------------------------------------------
+#[tokio::test]
+async fn replay_f_c05a_virtual_prev_keeps_agreeing_entries() {
+    use bytes::Bytes;
+    use d_engine_proto::common::EntryPayload;
+    let ctx = BufferedRaftLogTestContext::new(
+        PersistenceStrategy::MemFirst,
+        FlushPolicy::Batch { idle_flush_interval_ms: 1000 },
+        "verif_replay_f_c05a",
+    );
+    // the follower holds entries 1..=10 of term 1, all identical to the leader's (and, say, committed)
+    ctx.append_entries(1, 10, 1).await;
+    assert_eq!(ctx.raft_log.last_entry_id(), 10);
+    // leader side: handle_peer_stream_error reset next_index to match.unwrap_or(0)+1 = 1 (no ACK seen yet),
+    // so the next request has prev=(0,0) and carries the first `cap` entries only (cap = 3 here)
+    let first_batch: Vec<Entry> = (1..=3u64)
+        .map(|index| Entry { index, term: 1, payload: Some(EntryPayload::command(Bytes::from(b"data".to_vec()))) })
+        .collect();
+    ctx.raft_log.filter_out_conflicts_and_append(0, 0, first_batch).await.expect("accepted");
+    let survivors: Vec<u64> = (1..=10u64).filter(|i| ctx.raft_log.entry_term(*i) == Some(1)).collect();
+    assert_eq!(
+        survivors,
+        (1..=10u64).collect::<Vec<_>>(),
+        "every one of the follower's entries 1..=10 agreed with the leader, yet after an accepted AppendEntries(prev=(0,0), entries 1..=3) only {survivors:?} remain (last_entry_id={})",
+        ctx.raft_log.last_entry_id()
+    );
+}
